@@ -4,7 +4,7 @@ from pyvc.contracts import *
 S = Ref('ikesa.IkeSa')
 MSG = Rec('Message')
 PL = Rec('Payload')
-EVERYTHING = ['self.*', 'self.new_ike_sa.*', 'ghost:trace', 'ghost:handled', 'ghost:now']
+EVERYTHING = ['self.*', 'self.new_ike_sa.*', 'ghost:trace', 'ghost:handled', 'ghost:now', 'ghost:installs', 'ghost:dh_ops']
 
 # ---- request / response handlers: the contract every handler has to meet (C08 call-site precondition:
 # a handler only ever runs for the next expected Message ID) -------------------------------------------------
@@ -57,7 +57,7 @@ contract('ikesa.IkeSa._send_request', params={'request': MSG}, returns=Bytes, pr
          ensures={'arm': 'self.retransmissions == 1 and self.retransmit_at == now + 2', 'clock': 'now >= old(now)',
                   'bytes': 'result == wire(request)', 'len': 'len(result) >= 28'})
 
-contract('ikesa.IkeSa._process_request', params={'message': MSG}, returns=Opt(Bytes), props=['C08'],
+contract('ikesa.IkeSa._process_request', params={'message': MSG}, returns=Opt(Bytes), props=['C08', 'C17'],
          requires=['inv_ikesa(self)', 'not message.is_response', '0 <= message.message_id < 2 ** 32',
                    'self.peer_msg_id + 1 < 2 ** 32 - 1'],       # T6: Message IDs do not wrap
          modifies=EVERYTHING, raises={},
